@@ -166,6 +166,114 @@ func init() {
 			fmt.Fprintf(&sb, "/-- `unicode.ToLower` is idempotent and never negative -/\ndef lowerIdempotent : Bool := %v\n\n", idem)
 		}
 
+
+		// control skeleton of the comparators: every `if` condition, assignment and `return` expression, in source
+		// order with its nesting depth (closures are entered).  Props/C13.lean states what the model mirrors; a changed
+		// guard, tie-break or operator in /repo changes this table and breaks `comparators_match_source`.
+		flat := func(n ast.Node) string { return strings.Join(strings.Fields(c.Print(n)), " ") }
+		skeleton := func(file, fn, leanName string) {
+			fd := c.Func(file, fn)
+			if fd == nil || fd.Body == nil {
+				sb.WriteString(untranslatable(leanName))
+				return
+			}
+			var rows []string
+			emit := func(depth int, kind, text string) {
+				rows = append(rows, fmt.Sprintf("(%d, %s, %s)", depth, leanStr(kind), leanStr(text)))
+			}
+			good := true
+			var block func(stmts []ast.Stmt, depth int)
+			var stmt func(st ast.Stmt, depth int)
+			exprs := func(es []ast.Expr) string {
+				parts := make([]string, len(es))
+				for i, e := range es {
+					if fl, ok := e.(*ast.FuncLit); ok {
+						parts[i] = "func" + strings.TrimPrefix(flat(fl.Type), "func")
+					} else {
+						parts[i] = flat(e)
+					}
+				}
+				return strings.Join(parts, ", ")
+			}
+			funcLits := func(es []ast.Expr, depth int) {
+				for _, e := range es {
+					if fl, ok := e.(*ast.FuncLit); ok {
+						block(fl.Body.List, depth+1)
+					}
+				}
+			}
+			stmt = func(st ast.Stmt, depth int) {
+				switch x := st.(type) {
+				case *ast.IfStmt:
+					cond := flat(x.Cond)
+					if x.Init != nil {
+						cond = flat(x.Init) + "; " + cond
+					}
+					emit(depth, "if", cond)
+					block(x.Body.List, depth+1)
+					switch e := x.Else.(type) {
+					case nil:
+					case *ast.BlockStmt:
+						emit(depth, "else", "")
+						block(e.List, depth+1)
+					case *ast.IfStmt:
+						emit(depth, "else", "")
+						stmt(e, depth)
+					default:
+						good = false
+					}
+				case *ast.ReturnStmt:
+					emit(depth, "return", exprs(x.Results))
+					funcLits(x.Results, depth)
+				case *ast.AssignStmt:
+					emit(depth, "assign", exprs(x.Lhs)+" "+x.Tok.String()+" "+exprs(x.Rhs))
+					funcLits(x.Rhs, depth)
+				case *ast.DeclStmt:
+					emit(depth, "decl", flat(x))
+				case *ast.ExprStmt:
+					emit(depth, "expr", flat(x))
+				case *ast.BlockStmt:
+					block(x.List, depth)
+				case *ast.RangeStmt:
+					head := "range " + flat(x.X)
+					if x.Key != nil {
+						kv := flat(x.Key)
+						if x.Value != nil {
+							kv += ", " + flat(x.Value)
+						}
+						head = kv + " " + x.Tok.String() + " " + head
+					}
+					emit(depth, "for", head)
+					block(x.Body.List, depth+1)
+				default:
+					good = false
+				}
+			}
+			block = func(stmts []ast.Stmt, depth int) {
+				for _, st := range stmts {
+					stmt(st, depth)
+				}
+			}
+			block(fd.Body.List, 0)
+			if !good {
+				sb.WriteString(untranslatable(leanName))
+				return
+			}
+			fmt.Fprintf(&sb, "/-- control skeleton of `%s` (%s): (depth, kind, text) -/\ndef %s : List (Nat × String × String) := [\n  %s]\n\n",
+				fn, file, leanName, strings.Join(rows, ",\n  "))
+		}
+		skeleton("pkg/aggregation/sorting/strings.go", "ByName", "byNameSkel")
+		skeleton("pkg/aggregation/sorting/strings.go", "ByNameSmart", "byNameSmartSkel")
+		skeleton(ctxFile, "ByContextualEx", "byContextualExSkel")
+		skeleton(ctxFile, "ByContextual", "byContextualSkel")
+		skeleton(ctxFile, "inferSortSetByValue", "inferSkel")
+		skeleton("pkg/aggregation/sorting/dates.go", "ByDate", "byDateSkel")
+		skeleton("pkg/aggregation/sorting/dates.go", "ByDateWithContextual", "byDateWithContextualSkel")
+		skeleton("pkg/aggregation/sorting/namevalue.go", "ValueSorterEx", "valueSorterExSkel")
+		skeleton("pkg/aggregation/sorting/namevalue.go", "ValueNilSorter", "valueNilSorterSkel")
+		skeleton("pkg/aggregation/sorting/sorter.go", "Reverse", "reverseSkel")
+		skeleton(helpFile, "BuildSorter", "buildSorterSkel")
+
 		for _, fn := range [][2]string{
 			{"pkg/aggregation/sorting/strings.go", "ByName"}, {"pkg/aggregation/sorting/strings.go", "ByNameSmart"},
 			{ctxFile, "ByContextualEx"}, {ctxFile, "ByContextual"}, {ctxFile, "inferSortSetByValue"},
